@@ -4,6 +4,11 @@ From Coq Require Import ZArith List Bool Arith.
 Import ListNotations.
 Require Import MV.C20.Model MV.C20.Gen.
 
+(* a union-find history: the constructor argument (None = no argument / None) and the operations with their
+   observations; the initial state is the GENERATED constructor of Gen.v *)
+Definition check_uf_case (c : option (list Z) * list (op * obs)) : bool :=
+  run (uf_init (match fst c with Some l => l | None => uf_init_none end)) (snd c).
+
 Definition item_eqb (a b : item) : bool := Z.eqb (fst a) (fst b) && Z.eqb (snd a) (snd b).
 
 (* one queue operation: new data, and does the implementation's observation agree *)
